@@ -127,3 +127,22 @@ Proof.
     rewrite (model_lines_single (String c r) Hn) by discriminate. cbn [app].
     rewrite (split_skip_blank _ _ _ st Hf Hc Hb). reflexivity.
 Qed.
+
+(* ---- swapping two complete blocks of statements ---- *)
+(* both orders parse the same statements alone and hand the per-statement symbol lists to the merge in the respective
+   order.  (That the merge then yields the same symbols in another order — commutativity of Symbol.combine across names —
+   is checked by the correspondence and the oracle of harness/props/C14.py, not proved: hence `_partial` in Props.) *)
+Theorem swap_blocks s1 s2 st1 st2 b1 b2 :
+  s1 <> "" -> ends_sep s1 = false -> final_state s0 (model_lines s1) = Some st1 -> clean st1 = true ->
+  s2 <> "" -> ends_sep s2 = false -> final_state s0 (model_lines s2) = Some st2 -> clean st2 = true ->
+  map_p parse_equation_M (fst (split_M s1)) = POk b1 -> map_p parse_equation_M (fst (split_M s2)) = POk b2 ->
+  parse_model_nocheck (s1 ++ nl_s ++ s2) = of_outcome (merge_symbols (b1 ++ b2)) /\
+  parse_model_nocheck (s2 ++ nl_s ++ s1) = of_outcome (merge_symbols (b2 ++ b1)).
+Proof.
+  intros N1 E1 F1 C1 N2 E2 F2 C2 H1 H2.
+  assert (S1 : snd (split_M s1) = None) by (unfold split_M; apply (final_clean_no_error _ s0 st1 F1 C1)).
+  assert (S2 : snd (split_M s2) = None) by (unfold split_M; apply (final_clean_no_error _ s0 st2 F2 C2)).
+  destruct (statements_independent s1 s2 st1 b1 b2 N1 E1 F1 C1 H1 H2) as (A & _ & _).
+  destruct (statements_independent s2 s1 st2 b2 b1 N2 E2 F2 C2 H2 H1) as (B & _ & _).
+  rewrite A, B, S1, S2. split; reflexivity.
+Qed.
